@@ -46,6 +46,7 @@ static void exec_seq(const Plan& pl, const RunCtl& ctl, RunOut& out) {
   out.leaked = rt_alloc_stats().live_blocks - live0; out.peak = rt_alloc_stats().peak_bytes; out.maxreq = rt_alloc_stats().max_request;
   out.fault_fired = t->fault_fired; out.fault_guard = t->fault_guard; out.nothrow_failed = t->nothrow_failed;
   t->fault_op = -1; t->nothrow_fail_all = false; t->budget = ~0ull; t->step_limit = ~0ull;
+  if (out.fault_fired) rt_arena_expect_leaks();
   rt_env_release();
 }
 
@@ -307,6 +308,7 @@ static bool case_c14(const Plan& pl0, Stats& st, Violation& v) {
     rt_run_tasks(pl.ntasks, task_fn, &ta, chooser, &cc, 100000000ull, log.data(), log.size(), &nlog, &sr, ctxs.data(), prep_fn, &pc);
     if (cc.monitor_static) { int64_t off = rt_static_diff(); ++cc.static_checks; if (off >= 0) { if (cc.static_diff_off < 0) cc.static_diff_off = off; ++cc.rebaselined; rt_static_snapshot(); } }
     work_shared_destroy(ws);
+    if (ft.op >= 0) rt_arena_expect_leaks();
     rt_env_release();
     ++st.evals; st.switches += sr.switches; st.lib_preempt += sr.lib_preemptions; st.static_checks += cc.static_checks; st.colocated += cc.colocated;
     uint64_t h = 1469598103934665603ull; uint64_t steps = 0;
@@ -408,6 +410,7 @@ int main(int argc, char** argv) {
     std::string outdir = argv[8], wid = argv[9];
     signal(SIGTERM, on_term); signal(SIGINT, on_term);
     Stats st; uint64_t done = 0; int nviol = 0; std::set<std::string> seen_sigs;
+    FILE* keysf = fopen((outdir + "/w" + wid + ".keys").c_str(), "wb");     // appended as the run proceeds: survives a crash of this worker
     std::string samples;
     for (uint64_t r = start; done < maxruns && !g_stop; r += stride, ++done) {
       Plan p = gen_plan(prop, seed, r, cfg);
@@ -426,7 +429,8 @@ int main(int argc, char** argv) {
       st.evals += one.evals; st.steps += one.steps; st.fault_runs += one.fault_runs; st.nothrow_fault_runs += one.nothrow_fault_runs; st.fault_fired_in_lib += one.fault_fired_in_lib;
       st.leaked_after_fault += one.leaked_after_fault; st.twin_runs += one.twin_runs; st.compared += one.compared; st.nontrivial += one.nontrivial; st.cex += one.cex; st.switches += one.switches;
       st.lib_preempt += one.lib_preempt; st.runs_two_preempted += one.runs_two_preempted; st.static_checks += one.static_checks; st.static_rebaselined += one.static_rebaselined; st.yields_cb += one.yields_cb; st.colocated += one.colocated;
-      for (uint64_t k : one.keys) st.keys.insert(k);
+      for (uint64_t k : one.keys) if (st.keys.insert(k).second && keysf) fwrite(&k, 8, 1, keysf);
+      if (keysf) fflush(keysf);
       if (bad && seen_sigs.insert(v.cls + "|" + v.sig).second) {
         ++nviol;
         std::string pf = outdir + "/viol-" + wid + "-" + std::to_string(r) + ".plan";
@@ -437,7 +441,7 @@ int main(int argc, char** argv) {
       if (nviol >= 60) break;
     }
     // dump coverage and keys for the evidence file
-    { std::ofstream f(outdir + "/w" + wid + ".keys", std::ios::binary); for (uint64_t k : st.keys) f.write((const char*)&k, 8); }
+    if (keysf) fclose(keysf);
     { std::ofstream f(outdir + "/w" + wid + ".hits", std::ios::binary); uint32_t n = rt_num_guards(); const unsigned char* h = rt_guard_hits();
       for (uint32_t g = 1; g <= n; ++g) if (h[g]) { uint64_t pc = rt_guard_pc(g); f.write((const char*)&pc, 8); } }
     write_file(outdir + "/w" + wid + ".samples", samples);
